@@ -61,31 +61,31 @@ def log(*a):
 # ----------------------------------------------------------------------------
 # each part: (engine, sub-property, {tier: {"count": workloads, "scheds": schedules per workload}})
 PLANS = {
-    "C05": [("parsim", "C05", {"quick": dict(count=3000, scheds=20), "thorough": dict(count=60000, scheds=40)}),
+    "C05": [("parsim", "C05", {"quick": dict(count=5000, scheds=20), "thorough": dict(count=60000, scheds=40)}),
             ("miri", "C05E3", {"thorough": dict(count=32)})],
-    "C03": [("parsim", "C03", {"quick": dict(count=2500, scheds=12), "thorough": dict(count=50000, scheds=30)})],
+    "C03": [("parsim", "C03", {"quick": dict(count=5000, scheds=12), "thorough": dict(count=50000, scheds=30)})],
     "C06": [
-        ("parsim", "C06", {"quick": dict(count=3000, scheds=16), "thorough": dict(count=60000, scheds=32)}),
-        ("parsim", "C06N", {"quick": dict(count=600, scheds=10), "thorough": dict(count=10000, scheds=20)}),
+        ("parsim", "C06", {"quick": dict(count=6000, scheds=16), "thorough": dict(count=60000, scheds=32)}),
+        ("parsim", "C06N", {"quick": dict(count=1000, scheds=10), "thorough": dict(count=10000, scheds=20)}),
         ("miri", "C06E3", {"thorough": dict(count=32)}),
     ],
     "C10": [
-        ("seamsim", "C10", {"quick": dict(count=4000), "thorough": dict(count=150000)}),
-        ("parsim", "C10P", {"quick": dict(count=600, scheds=6), "thorough": dict(count=10000, scheds=12)}),
+        ("seamsim", "C10", {"quick": dict(count=8000), "thorough": dict(count=400000)}),
+        ("parsim", "C10P", {"quick": dict(count=1500, scheds=6), "thorough": dict(count=10000, scheds=12)}),
     ],
-    "C11": [("seamsim", "C11", {"quick": dict(count=40000), "thorough": dict(count=2000000)}),
+    "C11": [("seamsim", "C11", {"quick": dict(count=100000), "thorough": dict(count=2000000)}),
             ("seamsim-checked", "C11", {"thorough": dict(count=300000)})],
-    "C12": [("seamsim", "C12", {"quick": dict(count=48), "thorough": dict(count=400)}),
+    "C12": [("seamsim", "C12", {"quick": dict(count=96), "thorough": dict(count=400)}),
             ("seamsim-checked", "C12", {"thorough": dict(count=100)})],
     "C14": [
-        ("seamsim", "C14", {"quick": dict(count=20000), "thorough": dict(count=600000)}),
-        ("parsim", "C14P", {"quick": dict(count=800, scheds=6), "thorough": dict(count=20000, scheds=12)}),
+        ("seamsim", "C14", {"quick": dict(count=100000), "thorough": dict(count=600000)}),
+        ("parsim", "C14P", {"quick": dict(count=2000, scheds=6), "thorough": dict(count=20000, scheds=12)}),
     ],
-    "C16": [("seamsim", "C16", {"quick": dict(count=30), "thorough": dict(count=120)}),
+    "C16": [("seamsim", "C16", {"quick": dict(count=48), "thorough": dict(count=120)}),
             ("seamsim-checked", "C16", {"thorough": dict(count=60)})],
     "C17": [
-        ("seamsim", "C17", {"quick": dict(count=20000), "thorough": dict(count=400000)}),
-        ("parsim", "C17P", {"quick": dict(count=1500, scheds=8), "thorough": dict(count=30000, scheds=16)}),
+        ("seamsim", "C17", {"quick": dict(count=100000), "thorough": dict(count=400000)}),
+        ("parsim", "C17P", {"quick": dict(count=4000, scheds=8), "thorough": dict(count=30000, scheds=16)}),
     ],
 }
 
